@@ -31,7 +31,7 @@ import (
 var docValStrings = []string{"hello", "yes", "no", "true", "null", "~", "0x1f", "1e3", "12", "2002-08-15", "a: b", "- x", "#c", "'q'", "\"dq\"",
 	"tab\there", "multi\nline", "trailing ", " leading", "é↑", "{{matrix}}", "$HOME", "a,b", "[x]", "{y}", "&a", "*b", "!tag", "%d", "@at",
 	"`bt`", "|", ">", "?", ":", "-", "=", "<", "cr\rlf", "crcrlf\r\r\nend", "crlf\r\nend", "lfcr\n\rend", "tail\r", "x y", "\U0001F600", "0", "-1", "1.0", "on", "OFF", "Null", "3:25:45"}
-var docKeyStrings = []string{"k", "a b", "", "12", "true", "null", "~", "x: y", "#h", "'s'", "é", "0x1f", "1e3", "- d", "[", "*s", "&r", "!t", "|", ">",
+var docKeyStrings = []string{"k", "a b", "", "12", "0xc", "+12", "True", "true", "null", "~", "x: y", "#h", "'s'", "é", "0x1f", "1e3", "- d", "[", "*s", "&r", "!t", "|", ">",
 	"%p", "@a", "yes", "multi\nkey", "agents", "retry", "if", "depends_on", "soft_fail", "timeout_in_minutes", "0", "-", "?", "k2", "k3", "zz"}
 var docSources = []string{"docker#v1", "my-org/thing#main", "ecr", "github.com/buildkite-plugins/docker-buildkite-plugin#v2", "./local", "https://example.com/p.git#v1"}
 
@@ -115,6 +115,28 @@ func mustAVJSON(b []byte, what string) any {
 		panic("driver: " + what + " is not JSON: " + err.Error())
 	}
 	return a
+}
+
+// docPoison: process history. A marshal that legitimately FAILS (a non-finite float, finding F06) and one that
+// succeeds on an unrelated pipeline, run just before an ordinary document: whatever those calls left behind in the
+// library must not show in the next one.
+func docPoison() {
+	for rep := 0; rep < 12; rep++ {
+		docPoisonOnce()
+	}
+}
+
+func docPoisonOnce() {
+	for _, poison := range []string{"steps:\n  - wait: ~\n    x: .inf\n", "steps:\n  - trigger: t\n    build: {n: .nan}\nnotify: [{email: poison@example.com}]\nenv: {POISON: p}\n",
+		"steps:\n  - mystery: 1\n    agents: {weight: -.inf, queue: poison}\n"} {
+		func() {
+			defer func() { recover() }()
+			if pp, err := pipeline.Parse(strings.NewReader(poison)); err == nil || warning.Is(err) {
+				json.Marshal(pp)
+				yaml.Marshal(pp)
+			}
+		}()
+	}
 }
 
 // docEvent runs the whole round trip on one rendering.
@@ -244,7 +266,7 @@ func docEvent(src string, denotes any, style string, R int) obj {
 func docRenderings(doc any, rng *rand.Rand, nYAML int) [][3]any {
 	out := [][3]any{{string(utf8JSON(doc)), doc, "json"}}
 	for i := 0; i < nYAML; i++ {
-		st := &yamlStyle{rng: rng, flow: rng.Intn(3), quote: rng.Intn(3), factor: rng.Intn(2) == 0}
+		st := &yamlStyle{rng: rng, flow: rng.Intn(3), quote: rng.Intn(3), factor: rng.Intn(2) == 0, plainKeys: rng.Intn(2) == 0}
 		text, denotes := renderYAML(doc, st)
 		// self-check of the renderer: plain yaml.v3 must read the text back as the document it denotes
 		back, err := avFromYAML([]byte(text))
@@ -318,6 +340,23 @@ func historyFromDoc(d any, hist int) any {
 					m.Delete(fmt.Sprintf("\x00junk%d", i))
 				}
 			}
+		case hist == 4 && len(x) >= 2:
+			// as many junk keys in front as there are real ones, the first pair under a temporary name, the first KEY
+			// once more at the end; the junk is deleted (one short of the compaction threshold), then the temporary
+			// name is Replaced onto the first key - whose old slot, at the end, is tombstoned by that very call
+			n := len(x)
+			for i := 0; i < n; i++ {
+				m.Set(fmt.Sprintf("\x00junk%d", i), i)
+			}
+			m.Set("\x00tmp", "tmp")
+			for _, p := range x[1:] {
+				m.Set(p[0].(string), historyFromDoc(p[1], hist))
+			}
+			m.Set(x[0][0].(string), "stale")
+			for i := 0; i < n; i++ {
+				m.Delete(fmt.Sprintf("\x00junk%d", i))
+			}
+			m.Replace("\x00tmp", x[0][0].(string), historyFromDoc(x[0][1], hist))
 		default:
 			for _, p := range x {
 				m.Set(p[0].(string), historyFromDoc(p[1], hist))
@@ -390,7 +429,7 @@ func runCDoc(args []string) {
 				sz = 9 + rng.Intn(32)
 			}
 			d := g.freeMap(0, sz)
-			for hist := 0; hist < 4; hist++ {
+			for hist := 0; hist < 5; hist++ {
 				tw.emit(progEvent(d, hist))
 			}
 		}
@@ -439,8 +478,12 @@ func runCDoc(args []string) {
 				emit(progEvent(docFromAV(c["doc"]).(orderedJSON), hist))
 				return
 			}
+			if c["poison"] == true {
+				docPoison()
+			}
 			ev := docEvent(c["src"].(string), nil, c["style"].(string), R)
 			ev["doc"] = c["doc"]
+			ev["poison"] = c["poison"] == true
 			if pid, ok := c["probe"].(string); ok && pid != "" {
 				ev["probe"] = pid
 			}
@@ -453,7 +496,12 @@ func runCDoc(args []string) {
 			g.bigMaps = i%6 == 5
 			doc := g.pipeline()
 			for _, r := range docRenderings(doc, rng, fl.int("yaml", 2)) {
-				emit(docEvent(r[0].(string), r[1], r[2].(string), R))
+				if i%4 == 1 {
+					docPoison()
+				}
+				ev := docEvent(r[0].(string), r[1], r[2].(string), R)
+				ev["poison"] = i%4 == 1
+				emit(ev)
 			}
 		}
 	}
